@@ -862,14 +862,16 @@ def r10(ctx):
             if any(isinstance(t, ast.Name) and t.id == vp for t in tg):
                 return 'rebind:' + src(a.value)
         return None
-    rs = explore(f.body, mk_atoms({}), names=None, mark=mark)
+    # the paths on which the value is a quality string: isPhred holds (given, or looked up in the tag definitions)
+    php = f.args.args[3].arg if len(f.args.args) > 3 else 'isPhred'
+    rs = explore(f.body, mk_atoms({php: True, f'{php} is None': False, f'{php} is not None': True}), names=None, mark=mark, env0={php: True})
     npaths, bad = 0, []
     for r in rs:
         hist = []
         for t, v, k in r['stores']:
             if k == 'Mark' and v.startswith('rebind:'):
                 hist.append(v[len('rebind:'):])
-            elif t.startswith('self.tags[') and any(e_ in v for e_ in enc):
+            elif t.startswith('self.tags['):
                 npaths += 1
                 for h in hist:
                     he = ast.parse(h, mode='eval').body
@@ -879,7 +881,7 @@ def r10(ctx):
                     if not cast and len(bad) < 3:
                         bad.append((h, v))
                 break
-    ctx.need('C02-R10', npaths, 2, 'paths of addTagByTag that store an encoded / decoded quality string')
+    ctx.need('C02-R10', npaths, 1, 'paths of addTagByTag that store a quality string')
     ctx.emit('C02-R10', not bad, BASEDEMUX, f, f'{npaths} paths store qualities: the string given is only type-cast before it is encoded' if not bad else
              f'the quality string is rewritten by `{vp} = {bad[0][0]}` before `{bad[0][1][:60]}`: characters outside the name-safe alphabet are removed, the recorded qualities no longer '
              f'line up with the recorded bases', key='qualities-encoded-unmodified', witness={'rebinding': bad[0][0], 'store': bad[0][1]} if bad else None,
